@@ -1067,7 +1067,7 @@ class C21(Spec):
 
     def generate(self, rng, idx, tier):
         prog = gen_program(rng)
-        fault = rng.choice(["none", "none", "none", "truncate", "delete", "delete_default", "unused", "unused_list", "junk_list", "reuse", "unclosed_bb", "unclosed_sub"])
+        fault = rng.choice(["none", "none", "none", "truncate", "delete", "delete_default", "unused", "unused_list", "junk_list", "default_and_unused", "reuse", "unclosed_bb", "unclosed_sub"])
         return {"prog": prog, "bits_seed": rng.randrange(1 << 30), "nbytes": rng.choice([64, 64, 200]), "fault": fault, "fsel": rng.randrange(1 << 16), "ones": rng.random() < 0.2, "plain": rng.random() < 0.5}
 
     def shrink(self, case):
@@ -1213,7 +1213,7 @@ class C21(Spec):
         ctx_in = _copy.deepcopy(ctx1)
         expect_ser = None
         defaults = {}
-        if fault in ("delete", "delete_default", "unused", "unused_list", "junk_list"):
+        if fault in ("delete", "delete_default", "unused", "unused_list", "junk_list", "default_and_unused"):
             pairs = contexts_of(prog, ctx_in)
             if fault in ("delete", "delete_default"):
                 cands = []
@@ -1249,6 +1249,37 @@ class C21(Spec):
                 else:
                     c[free[0]] = 123
                     expect_ser = (bs_exc.UnusedTargetError,)
+            elif fault == "default_and_unused":
+                # two cooperating faults in ONE context: a value left to the
+                # default table and an extra value nobody uses — the extra one
+                # must still make serialisation fail
+                cands = []
+                for c, p in pairs:
+                    if type(c) in SD_TYPES:
+                        for o in p:
+                            if o["op"] in ("bool", "nbits", "uint_lit") and not o["t"].startswith("L") and o["t"] in c:
+                                cands.append((c, p, o))
+                if not cands:
+                    fault = "none"
+                else:
+                    c, p, o = fr.choice(cands)
+
+                    def targets2(q):
+                        out = set()
+                        for oo in q:
+                            out.add(oo["t"])
+                            if oo["op"] in ("bounded_block", "bb_begin_unclosed"):
+                                out |= targets2(oo["body"])
+                        return out
+
+                    free = [t for t in _T_NAMES if t not in targets2(p)]
+                    if not free:
+                        fault = "none"
+                    else:
+                        del c[o["t"]]
+                        c[free[0]] = 123
+                        defaults = {type(c): {o["t"]: False if o["op"] == "bool" else 0}}
+                        expect_ser = (bs_exc.UnusedTargetError,)
             elif fault == "junk_list":
                 # a non-list value provided under a list target: it can be
                 # neither used nor ignored, so serialisation has to fail
@@ -1270,7 +1301,7 @@ class C21(Spec):
         # ---- serialise (half of the runs from a description made of plain
         # dicts, as a user would supply it: set_context_type then has to
         # convert every sub-description and keep the tree consistent)
-        if case.get("plain"):
+        if case.get("plain") and fault != "default_and_unused":
             ctx_in = plainify(ctx_in)
             defaults = {}
             if fault == "delete_default":
